@@ -5,3 +5,8 @@ import DafRel.Props.C06
 #print axioms DafRel.Props.C06.empty_sound
 #print axioms DafRel.Props.C06.trivial_sound
 #print axioms DafRel.Props.C06.chain_prune_sound
+#print axioms DafRel.Props.C06.bridge_slice_bounds
+#print axioms DafRel.Props.C06.bridge_dedup_bounds
+#print axioms DafRel.Props.C06.bridge_binary_bounds
+#print axioms DafRel.Props.C06.bridge_passthrough_bounds
+#print axioms DafRel.Props.C06.bridge_triviality_flags
